@@ -170,7 +170,9 @@ func cmdCheck(args []string) int {
 			switch o.Result {
 			case "unsat":
 				nDis++
-				discharged = append(discharged, o.Name)
+				if bn := baselineName(o); bn != "" {
+					discharged = append(discharged, bn)
+				}
 			case "disagree":
 				broken = append(broken, "solver disagreement on "+o.Name+": "+o.Model)
 			default:
@@ -179,6 +181,7 @@ func cmdCheck(args []string) int {
 		}
 	}
 	sort.Strings(discharged)
+	discharged = uniq(discharged)
 	if *writeBaseline {
 		if base.Properties == nil {
 			base.Properties = map[string][]string{}
@@ -192,8 +195,10 @@ func cmdCheck(args []string) int {
 	var missing []string
 	if bl, ok := base.Properties[*prop]; ok {
 		have := map[string]bool{}
-		for _, e := range evs {
-			have[e.Name] = true
+		for _, r := range results {
+			for _, o := range r.G.obls {
+				have[baselineName(o)] = true
+			}
 		}
 		for _, n := range bl {
 			if !have[n] {
@@ -219,7 +224,26 @@ func cmdCheck(args []string) int {
 	if *replayDirF != "" {
 		replayDir = *replayDirF
 	}
+	degradedFn := map[string][]string{}
+	for _, r := range results {
+		if len(r.G.degraded) > 0 {
+			degradedFn[r.Display] = r.G.degraded
+		}
+	}
+	var undecided []string
 	for _, o := range failed {
+		if reasons, ok := degradedFn[o.Fn]; ok {
+			// the contract does not fit the function's structure any more: a failed proof here is
+			// undecided, not a violation; the bounded conformance run decides (DESIGN 6.3)
+			cf := (*confFailure)(nil)
+			if conf != nil {
+				cf = conf.failureFor(o.Fn)
+			}
+			if cf == nil || matchKnownConf(known.Findings, *prop, cf.Case) != nil {
+				undecided = append(undecided, fmt.Sprintf("%s: %s (%s)", o.Name, o.Result, strings.Join(reasons, "; ")))
+				continue
+			}
+		}
 		kf := matchKnown(known.Findings, *prop, o.Name)
 		if kf != nil {
 			nKnownObl++
@@ -278,7 +302,7 @@ func cmdCheck(args []string) int {
 			if attributed {
 				continue
 			}
-			if len(resolution) > 0 || len(missing) > 0 {
+			if len(resolution) > 0 || len(missing) > 0 || len(degradedFn) > 0 {
 				violations++
 				exit = 1
 				os.MkdirAll(replayDir, 0o755)
@@ -286,8 +310,10 @@ func cmdCheck(args []string) int {
 				b, _ := json.MarshalIndent(map[string]interface{}{"property": *prop, "failing_input": cfail, "replay_cmd": conf.cmd, "note": "found by bounded conformance after a contract-resolution failure"}, "", " ")
 				os.WriteFile(rp, b, 0o644)
 				fmt.Printf("VIOLATION property=%s replay=%s conformance=%s\n", *prop, rp, cfail.Case)
-			} else {
-				broken = append(broken, fmt.Sprintf("engine cross-check: %s fails on the real code (%s) although every obligation of %s was discharged", cfail.Case, cfail.Detail, cfail.Fn))
+			} else if len(failed) == 0 {
+				// every obligation of the property was discharged and still the real code violates a
+				// run-time contract: the engine (or a trusted contract) is wrong
+				broken = append(broken, fmt.Sprintf("engine cross-check: %s fails on the real code (%s) although every obligation of the property was discharged", cfail.Case, cfail.Detail))
 			}
 		}
 	}
@@ -298,11 +324,14 @@ func cmdCheck(args []string) int {
 	for _, r := range resolution {
 		fmt.Printf("UNDECIDED: contract no longer applies: %s\n", r)
 	}
+	for _, u := range undecided {
+		fmt.Printf("UNDECIDED: %s\n", u)
+	}
 	for _, m := range missing {
 		fmt.Printf("UNDECIDED: baseline obligation not generated any more: %s\n", m)
 	}
 	level := "proof"
-	if len(resolution) > 0 || len(missing) > 0 {
+	if len(resolution) > 0 || len(missing) > 0 || len(undecided) > 0 {
 		level = "exploration"
 	}
 	if len(broken) > 0 {
@@ -362,6 +391,7 @@ func cmdCheck(args []string) int {
 			"samples":                  samples,
 			"abstractions":             noteL,
 			"resolution_failures":      resolution,
+			"undecided":                undecided,
 			"missing_baseline":         missing,
 			"known_findings":           kl,
 		}
@@ -417,4 +447,30 @@ func matchKnownConf(kfs []KnownFinding, prop, c string) *KnownFinding {
 		}
 	}
 	return nil
+}
+
+// baselineName: the stable part of an obligation name. Only obligations that come from a
+// contract clause (post-conditions, invariants, lock invariants) are tracked in the baseline;
+// safety/frame/pre obligations are numbered by instruction site and change with harmless edits.
+func baselineName(o *Obligation) string {
+	switch o.Kind {
+	case "post", "inv-entry", "inv-preserve", "lock-inv":
+	default:
+		return ""
+	}
+	n := o.Name
+	if i := strings.LastIndex(n, "#"); i >= 0 {
+		n = n[:i]
+	}
+	return n
+}
+
+func uniq(xs []string) []string {
+	var out []string
+	for i, x := range xs {
+		if i == 0 || x != xs[i-1] {
+			out = append(out, x)
+		}
+	}
+	return out
 }
